@@ -128,7 +128,8 @@ Definition gcase_model_ok (c : gcase) : bool :=
 
 (* ---------------------------------------------------------------- (e) end to end through the real proxy *)
 (* what the client must observe, derived from the origin's script alone *)
-Record xexp := { x_code : N; x_fields : list (str * list str); x_body : str; x_trailers : list (str * list str) }.
+Record xexp := { x_code : N; x_fields : list (str * list str); x_absent : list str; x_body : str; x_trailers : list (str * list str) }.
+(* x_absent: hop-by-hop field names (RFC 7230 6.1 and those nominated by the origin's Connection field) that must not reach the client *)
 Record exch := {
   e_req : req;
   e_snap : resp;            (* the *http.Response as the innermost response modifier saw it (header before the
@@ -176,6 +177,7 @@ Definition values_match (got : list (str * str)) (want : str * list str) : bool 
 Definition obs_matches (o : obs) (x : xexp) : bool :=
   (o_code o =? x_code x) &&
   forallb (values_match (o_fields o)) (x_fields x) &&
+  forallb (fun n => match field_values n (o_fields o) with [] => true | _ => false end) (x_absent x) &&
   str_eqb (o_body o) (x_body x) &&
   forallb (values_match (o_trailers o)) (x_trailers x).
 Fixpoint all_match (os : list obs) (es : list exch) : bool :=
